@@ -94,6 +94,14 @@ def judge(case, obs, res):
                         case, obs, "ok")
             return False
         return True
+    if k == "nonref":
+        # a signature made over some OTHER encoding of the same metadata (ordinary JSON escaping, an older release's mix)
+        if obs.get("parse") == "ok" and obs.get("verify") == "ok":
+            res.violate(f"non-reference-signature-accepted:{m['encoding']}:{m['blame']}",
+                        f"a signature made over the {m['encoding']} encoding - not the reference bytes - of the metadata is accepted ({m['blame']})",
+                        case, obs, "err")
+            return False
+        return True
     if k == "foreign":
         if obs.get("parse") != "ok" or obs.get("verify") != "ok":
             res.violate(f"reference-signature-rejected:{m['party']}:{m['blame']}",
@@ -203,6 +211,24 @@ def shard_run(binpath, seed, sh, nshards, thorough):
         for c, o in zip(bc, bo):
             r = judge(c, o, res)
             res.note([c["text"]], True, cls=["spliced_reference_signature:" + ("accepted" if r else "rejected")])
+        # the converse: bytes that are NOT the reference encoding of the metadata do not verify as its signed bytes
+        nr = []
+        for (sdoc, m), k in zip(foreign, fk):
+            refb = ref_bytes(sdoc)
+            cj = jg.ref_canon(sdoc)                      # ordinary canonical JSON (all JSON escapes kept)
+            for enc, b in (("json-escaped", cj.encode()), ("json-escaped-with-raw-line-feeds", cj.replace("\\n", "\n").encode()),
+                           ("pretty", json.dumps(sdoc, indent=1, sort_keys=True).encode())):
+                if b != refb:
+                    nr.append((sdoc, m, k, enc, b))
+        so2 = common.run_batch(binpath, [{"op": "rawsig", "key": k, "msg": {"hex": b.hex()}} for _, _, k, _, b in nr])
+        bc2 = []
+        for (sdoc, m, k, enc, b), o in zip(nr, so2):
+            if "ok" in o:
+                bc2.append({"op": "block", "text": json.dumps({"signatures": [o["ok"]], "signed": sdoc}, ensure_ascii=False), "threshold": 1,
+                            "auth": [W.pub(k)], "meta": {"kind": "nonref", "encoding": enc, "blame": m["blame"], "field": m["field"]}})
+        for c, o in zip(bc2, common.run_batch(binpath, bc2)):
+            r = judge(c, o, res)
+            res.note([c["text"], c["meta"]["encoding"]], True, cls=["signature_over_other_encoding:" + c["meta"]["encoding"] + ":" + ("rejected" if r else "accepted")])
     if sh == 0 and cases:
         res.sample({"signed": cases[0]["signed"], "reference_bytes": cases[0]["meta"]["ref"], "agree": obs[0].get("ok", {}).get("sig") == cases[0]["meta"]["libsig"]})
     return res
